@@ -1,8 +1,52 @@
 import AFV.Driver.Proto
+import AFV.Driver.ArchTreeJson
 namespace AFV.Driver.C25
-open Lean AFV.Proto
+open Lean AFV.Proto AFV.ArchTree AFV.Driver.ArchTreeJson
 
-/-- Handler for property C25 requests (stub: not implemented yet). -/
-def handle (_req : Json) : Json := err "unimplemented"
+/-- Which branches of the `_flatten` model a query exercises (evidence only). -/
+def branches (c : String) : Nodes → List String
+  | .nil => []
+  | .leaf l r =>
+      if l.compute then (if l.name == c then ["compute-hit"] else "compute-skip" :: branches c r)
+      else "leaf" :: branches c r
+  | .hier i r =>
+      match flatten c i with
+      | none => ["assert"]
+      | some new => if hasCompute c new then "hier-break" :: branches c i
+                    else "hier-continue" :: (branches c i ++ branches c r)
+  | .fork i r =>
+      if !find c i then "fork-skip" :: branches c r
+      else "fork-enter" :: branches c i
+
+def resultJson : FlatResult → Json
+  | .ok p => Json.mkObj [("ok", leafNames p)]
+  | .duplicateName => Json.mkObj [("exc", "duplicate")]
+  | .assertion => Json.mkObj [("exc", "assertion")]
+  | .empty => Json.mkObj [("exc", "empty")]
+  | .notFound => Json.mkObj [("exc", "notfound")]
+
+def one (t : Nodes) (c : String) : Json :=
+  Json.mkObj [
+    ("c", Json.str c),
+    ("model", resultJson (getFlattened t c)),
+    ("spec", match path t c with | some p => leafNames p | none => Json.null),
+    ("branches", ofStrList (branches c t).eraseDups)]
+
+/-- ops:
+  {"op":"flatten","tree":tree,"c":name} → {"c","model":{"ok":[names]}|{"exc":kind},"spec":[names]|null,"branches":[…]}
+  {"op":"all","tree":tree}              → {"wf":bool,"computes":[names],"paths":[one …]}   (document order of the computes) -/
+def handle (req : Json) : Json :=
+  match (field? req "op").bind getStr?, (field? req "tree").bind parseTree with
+  | some "flatten", some t =>
+    match (field? req "c").bind getStr? with
+    | some c => one t c
+    | none => err "malformed"
+  | some "all", some t =>
+    Json.mkObj [
+      ("wf", Json.bool (!hasDup (names t))),
+      ("computes", ofStrList (computeNames t)),
+      ("paths", Json.arr ((computeNames t).map (one t)).toArray)]
+  | some _, some _ => err "bad-op"
+  | _, _ => err "malformed"
 
 end AFV.Driver.C25
